@@ -15,13 +15,18 @@ cut = z3.BitVec('cut', 64)          # bytes of the last frame that are delivered
 badbyte = z3.BitVec('badbyte', 8)   # value of the corrupted magic byte
 
 
-def run_lifecycle(E, st, ops, end, fault, max_reads, wfail=False, spawned=False, permits=None):
+def run_lifecycle(E, st, ops, end, fault, max_reads, wfail=False, spawned=False, permits=None, cap=4096):
     """m complete frames (ops), then according to `fault`:
        None      nothing more
        'partial' the first `cut` bytes of one more frame (0 <= cut < its length)
        'corrupt' one more complete frame whose magic byte is `badbyte` != 0x80
     then the peer closes ('eof'), resets ('error') or goes silent ('silent')."""
     extra = 2   # the frame after the complete ones is a set (has header, extras, key, value)
+    if fault == 'partial-big':
+        # ... or a set whose body (1025 bytes) exceeds the item limit (1024): cut anywhere, also inside the part that is skipped
+        extra = 16
+        fault = 'partial'
+        E.assume(limit == 1024)
     magic = {len(ops): badbyte} if fault == 'corrupt' else None
     if fault == 'corrupt':
         E.assume(badbyte != 0x80)
@@ -47,7 +52,7 @@ def run_lifecycle(E, st, ops, end, fault, max_reads, wfail=False, spawned=False,
     sem = None
     if permits is not None:
         sem = Ref(E.alloc(Agg('Semaphore', [permits])))
-    ccell, sem = SC.new_client(E, w, sent_bv, end, wfail, sem)
+    ccell, sem = SC.new_client(E, w, sent_bv, end, wfail, sem, cap=cap)
     SC.watch_handler(E)
     x = SC.Run()
     x.w = w
